@@ -35,6 +35,7 @@ theorem c09_on_source (c : Cfg) (hex : c.beh.exit ≠ .ok) (pre : Nat → Option
 
 theorem generated_all_ops_known_c09 : taskSemKnown = true := by decide
 
+
 -- BEGIN PINS (written by bin/mkpins; do not edit by hand)
 /-- the Go functions this property's model and obligations were written against have exactly the
 pinned skeletons (SHA-256 prefix of the atom list) -/
@@ -58,8 +59,8 @@ theorem pinned_skeletons_c09 :
 -- END PINS
 
 end SciVerif.Tie
-#print axioms SciVerif.Tie.generated_all_ops_known_c09
 #print axioms SciVerif.Tie.pinned_skeletons_c09
+#print axioms SciVerif.Tie.generated_all_ops_known_c09
 #print axioms SciVerif.Tie.generated_cmd_fail_fatal
 #print axioms SciVerif.Tie.generated_rename_src_temp
 #print axioms SciVerif.Tie.generated_wf_c01_for_c09
